@@ -2,6 +2,7 @@
 import ast
 
 from .. import paths
+from .. import ordtype as O
 from ..loader import AnalysisError, norm_stmt
 from .C16 import signed_factors, terms
 
@@ -230,8 +231,7 @@ def detector_reference_rule(ctx, rule="R07.10"):
     positions count as unchanged and the cached kriging results of the old positions are reused."""
     from .. import alias
 
-    an = alias.Analyzer(ctx.prog)
-    an.run()
+    an = alias.analyzed(ctx.prog)
     n = 0
     fld = ctx.prog.cls(FB, "Field")
     for ci in [fld] + list(ctx.prog.subclasses(fld)):
@@ -249,6 +249,28 @@ def detector_reference_rule(ctx, rule="R07.10"):
                     ps = sorted(l for l in labs if l.startswith("P:"))
                     ctx.check(not ps, rule, fq, "the stored positions do not share memory with the caller's array (may alias: %s)" % ps, "pos-alias:" + ",".join(ps))
     ctx.floor(rule, "stores of the position tuple", n, 1)
+
+
+def mesh_type_writers(ctx, rule="R07.12"):
+    """set_pos remembers the OLD mesh type before it stores the new one and invalidates on a change.  Any other method that writes the mesh
+    type beforehand (the convenience wrappers structured / unstructured) hides the change - allowed only for the very first call, i.e.
+    guarded by exactly `self.pos is None`."""
+    prog = ctx.prog
+    fld = prog.cls(FB, "Field")
+    n = 0
+    for ci in [fld] + list(prog.subclasses(fld)):
+        for kind, sfx in (("methods", ""), ("setters", "@set")):
+            for name, fn in getattr(ci, kind).items():
+                if name in ("set_pos", "__init__") or (kind == "setters" and name == "mesh_type"):
+                    continue
+                for st in ast.walk(fn):
+                    if isinstance(st, ast.Assign) and any(isinstance(t, ast.Attribute) and isinstance(t.value, ast.Name) and t.value.id == "self" and t.attr in ("mesh_type", "_mesh_type") for t in st.targets):
+                        n += 1
+                        pc = O.path_condition(fn, st)
+                        ok = any(p and ast.unparse(e) == "self.pos is None" for e, p in pc)
+                        ctx.check(ok, rule, "%s::%s.%s%s" % (ci.module.relpath, ci.name, name, sfx), "mesh type written outside set_pos only while no positions are present yet (guards: %s)"
+                                  % [("" if p else "not ") + ast.unparse(e) for e, p in pc], "mesh-type-write:" + norm_stmt(st)[:40])
+    ctx.floor(rule, "mesh-type stores outside set_pos", n, 2)
 
 
 def detector_rule(ctx, rule="R07.3"):
@@ -299,8 +321,7 @@ def deletion_rule(ctx, rule="R07.7"):
     while its body removes entries from that list skips every second name (stale `krige_var` survives set_condition)."""
     from .. import alias
 
-    an = alias.Analyzer(ctx.prog)
-    an.run()
+    an = alias.analyzed(ctx.prog)
     sites = 0
     for fq, sm in sorted(an.summ.items()):
         for lab, where in sm.szmut.items():
@@ -330,6 +351,7 @@ def run(ctx):
     provenance_rule(ctx)
     call_inputs_rule(ctx)
     detector_reference_rule(ctx)
+    mesh_type_writers(ctx)
     detector_rule(ctx)
     from .C11 import update_before_generate
 
